@@ -1,19 +1,48 @@
-"""Shared correspondence machinery for the Session model M2 (properties C01, C02, C03, C12, C13).
+"""Shared correspondence machinery for the second-generation Session model (coq/theories/Session2:
+output queue `_out_packet` and a transport that may refuse writes), properties C01, C02, C03, C12, C13
+and the queue discipline (FIFO).
 
 An operation sequence is run on the real client (in-memory transport) and on the extracted Coq model;
-per operation the emitted events and a projection of the internal state are compared.  The trace
-recorded from the implementation is then judged by the extracted checkers c01_ok..c13_ok - the very
-functions the theorems are about."""
+per operation the emitted events (packets HANDED to the connection, packets WRITTEN, callbacks,
+MQTTMessageInfo changes) and a projection of the internal state (message stores, `_out_packet`, blocked
+flag) are compared.  The trace recorded from the implementation is then judged by the extracted
+checkers - the very functions the theorems of Session2/Statements.v are about.
+
+Same interface as harness/session.py (`standard_run(ctx, out, prop_keys, label)`), so a per-property
+harness can call both runs."""
+import collections
 import itertools
 import paho.mqtt.client as mqtt
 from vlib import impl, model
 
-TAG = "session"
+TAG = "session2"
+EXTRACT_TAGS = ["session2", "mid"]
+RULE = ("corpus of repaired-defect witnesses and of blocked-transport scenarios first (among them the scenario of seeded defect "
+        "S-C01-1: send blocks, QoS 1 and 2 publishes accepted, loss, reconnect, unblock, CONNACK, acks); exhaustive operation "
+        "sequences of length 3 (quick) / 3 and 4 (thorough) over 16 operations (publish q1/q2, reconnect ok/fail, loss, CONNACK, "
+        "PUBACK/PUBREC/PUBCOMP for ids 1..2, inbound PUBLISH q2, PUBREL, transport blocks, transport accepts again) after "
+        "state-building prefixes (window full, message past PUBREC, failed reconnect pending, packets sitting in _out_packet); "
+        "seeded random mostly-conforming histories of length 6..60 in which the transport changes its mind with probability "
+        "0..25% per step; histories across the 16-bit id wrap. Every history runs on the real client and on the extracted model: "
+        "per operation the events (hand-overs to _out_packet, writes, callbacks, MQTTMessageInfo changes) and the state "
+        "(message stores, _out_packet with kinds/ids/flags/info, blocked flag) are compared, and the implementation trace is "
+        "judged by the extracted checkers. distinct = distinct (config, implementation trace); non-trivial = the trace hands "
+        "over or writes at least one PUBLISH/PUBREL with QoS>0")
+ASSUMPTIONS = [
+    "a transport that refuses writes refuses the whole packet (partial writes and fragmentation are C05/C06)",
+    "broker conformance as defined by Session2/Model.conforming (CONNACK first and once per connection; PUBACK/PUBREC/PUBCOMP only "
+    "for a message in the matching wait state whose PUBLISH/PUBREL has been WRITTEN, or for an unknown id)",
+    "callbacks on_publish/on_connect do not raise; no network thread, no on_socket_register_write callback, API calls are not "
+    "nested inside callbacks (C07/C18 cover those)",
+]
 ST = {mqtt.mqtt_ms_publish: 1, mqtt.mqtt_ms_wait_for_puback: 2, mqtt.mqtt_ms_wait_for_pubrec: 3,
       mqtt.mqtt_ms_resend_pubrel: 4, mqtt.mqtt_ms_wait_for_pubcomp: 5, mqtt.mqtt_ms_queued: 6}
-PROPS = ["C01", "C02", "C03", "C12w", "C12q", "C13"]
+PROPS = ["C01", "C02", "C03", "C12w", "C12h", "C12q", "C13", "C13h", "FIFO"]
+# checker names of harness/session.py -> the checkers of this model that state the same property
+ALIASES = {"C12w": ["C12w", "C12h"], "C13": ["C13", "C13h", "FIFO"], "C03": ["C03", "FIFO"], "C01": ["C01"], "C02": ["C02"],
+           "C12q": ["C12q"], "C12h": ["C12h"], "C13h": ["C13h"], "FIFO": ["FIFO"]}
 
-# ---- ops (python tuples):  ("pub", q) ("rec", ok) ("lost",) ("rx", kind, a, b, c, raises) ("ack", mid, q)
+# ---- ops (python tuples):  ("pub", q) ("rec", ok) ("lost",) ("rx", kind, a, b, c, raises) ("ack", mid, q) ("block", b)
 RXK = {"connack": 0, "puback": 1, "pubrec": 2, "pubcomp": 3, "pubrel": 4, "publish": 5}
 
 
@@ -28,6 +57,10 @@ def enc_op(o):
         return [3, RXK[o[1]], o[2], o[3], o[4], int(o[5])]
     if o[0] == "ack":
         return [4, o[1], o[2], 0, 0, 0]
+    if o[0] == "block":
+        return [5, int(o[1]), 0, 0, 0, 0]
+    if o[0] == "fail":
+        return [5, 2, 0, 0, 0, 0]
     raise ValueError(o)
 
 
@@ -37,6 +70,35 @@ def enc_cfg(cfg):
 
 class Boom(Exception):
     pass
+
+
+class AlwaysFail:
+    """send plan of a FakeSock whose send() raises BrokenPipeError (an OSError) every time"""
+
+    def __bool__(self):
+        return True
+
+    def popleft(self):
+        return -1
+
+    def clear(self):
+        pass
+
+
+class AlwaysBlock:
+    """send plan of a FakeSock whose send() raises BlockingIOError every time"""
+
+    def __bool__(self):
+        return True
+
+    def popleft(self):
+        return 0
+
+    def clear(self):
+        pass
+
+
+PKIND = {1: 0, 3: 1, 6: 2, 4: 3, 5: 4, 7: 5}      # MQTT packet type -> packet kind of the model
 
 
 def run_impl(cfg, ops):
@@ -52,12 +114,41 @@ def run_impl(cfg, ops):
     else:
         c.connect_async("h")
     ev = []
-    st = {"conn": 0, "wirepos": 0, "cur_tag": None, "raise_next": False, "infos": {}, "tag_of_mid": {}, "ntag": 0}
+    st = {"conn": 0, "wirepos": 0, "cur_tag": None, "raise_next": False, "infos": {}, "tag_of_mid": {}, "ntag": 0,
+          "q0_written": None, "rc0": {}, "problems": []}
 
     def tag_of_payload(p):
         return int(bytes(p).decode() or "0")
 
+    def describe(first, body):
+        """[kind, mid, flags, tag] of one outgoing packet, in the model's encoding"""
+        t = first >> 4
+        if t == 1:
+            return [0, 0, 0, 0]
+        if t == 3:
+            q, dup = (first >> 1) & 3, (first >> 3) & 1
+            tl = int.from_bytes(body[:2], "big")
+            off = 2 + tl
+            mid = 0
+            if q:
+                mid = int.from_bytes(body[off:off + 2], "big")
+                off += 2
+            if v5:
+                off += 1 + body[off]
+            tag = tag_of_payload(body[off:])
+            if not q:
+                mid = st["q0mid"].get(tag, 0)
+            return [1, mid, q * 2 + dup, tag]
+        if t == 6:
+            mid = int.from_bytes(body[:2], "big")
+            return [2, mid, 0, st["tag_of_mid"].get(mid, -1)]
+        if t in (4, 5, 7):
+            mid = int.from_bytes(body[:2], "big")
+            return [{4: 3, 5: 4, 7: 5}[t], mid, 0, 0]
+        return [90 + t, 0, 0, 0]
+
     def flush_wire():
+        """turn the bytes that reached the wire since the last call into Tx events"""
         if not c.socks:
             return
         s = c.socks[-1]
@@ -65,37 +156,49 @@ def run_impl(cfg, ops):
         pk, rest = impl.split_packets(data)
         st["wirepos"] += len(data) - len(rest)
         for first, body in pk:
-            t = first >> 4
-            if t == 1:
-                ev.append([0, st["conn"], 0, 0, 0, 0])
-            elif t == 3:
-                q, dup = (first >> 1) & 3, (first >> 3) & 1
-                tl = int.from_bytes(body[:2], "big")
-                off = 2 + tl
-                mid = 0
-                if q:
-                    mid = int.from_bytes(body[off:off + 2], "big")
-                    off += 2
-                if v5:
-                    off += 1 + body[off]
-                tag = tag_of_payload(body[off:])
-                if not q:
-                    mid = st["q0mid"].get(tag, 0)
-                ev.append([0, st["conn"], 1, mid, q * 2 + dup, tag])
-            elif t == 6:
-                mid = int.from_bytes(body[:2], "big")
-                ev.append([0, st["conn"], 2, mid, 0, st["tag_of_mid"].get(mid, -1)])
-            elif t in (4, 5, 7):
-                mid = int.from_bytes(body[:2], "big")
-                ev.append([0, st["conn"], {4: 3, 5: 4, 7: 5}[t], mid, 0, 0])
-            else:
-                ev.append([0, st["conn"], 90 + t, 0, 0, 0])
+            d = describe(first, body)
+            ev.append([0, st["conn"]] + d)
+            if d[0] == 1 and d[2] // 2 == 0:
+                st["q0_written"] = (d[1], d[3])
     st["q0mid"] = {}
+
+    # every packet enters _out_packet through _packet_queue: record the hand-over (and learn which
+    # MQTTMessageInfo belongs to which publish() call) before the original appends and calls loop_write()
+    orig_pq = c._packet_queue
+
+    def packet_queue(command, packet, mid, qos, info=None):
+        flush_wire()
+        pk, rest = impl.split_packets(bytes(packet))
+        if len(pk) != 1 or rest:
+            st["problems"].append("_packet_queue called with something that is not exactly one packet")
+        first, body = pk[0]
+        if first >> 4 == 6 and mid in c._out_messages:
+            st["tag_of_mid"][mid] = tag_of_payload(c._out_messages[mid].payload)
+        d = describe(first, body)
+        if info is not None and d[0] == 1:
+            st["infos"].setdefault(id(info), (d[3], info))
+        ev.append([10, st["conn"]] + d)
+        return orig_pq(command, packet, mid, qos, info)
+    c._packet_queue = packet_queue
+
+    orig_create = c._create_socket
+
+    def create_socket():
+        s = orig_create()
+        st["conn"] += 1
+        st["wirepos"] = 0
+        ev.append([7, st["conn"], 0, 0, 0, 0])
+        return s
+    c._create_socket = create_socket
 
     def on_publish(cl, ud, mid, *a):
         flush_wire()
-        m = c._out_messages.get(mid)
-        tag = tag_of_payload(m.payload) if m is not None else st["cur_tag"]
+        qw, st["q0_written"] = st["q0_written"], None
+        if qw is not None and ev and ev[-1][0] == 0 and ev[-1][2] == 1 and ev[-1][4] // 2 == 0 and qw[0] == mid:
+            tag = qw[1]          # on_publish of the QoS 0 PUBLISH that _packet_write has just finished
+        else:
+            m = c._out_messages.get(mid)
+            tag = tag_of_payload(m.payload) if m is not None else st["cur_tag"]
         ev.append([2, mid, tag if tag is not None else -1, 0, 0, 0])
 
     def on_message(cl, ud, msg):
@@ -103,10 +206,25 @@ def run_impl(cfg, ops):
         ev.append([4, msg.mid, msg.qos, tag_of_payload(msg.payload), 0, 0])
         if st["raise_next"]:
             raise Boom()
+    def on_disconnect(*a):
+        # the connection ended: end of stream, refused CONNACK, or a write that failed hard
+        flush_wire()
+        ev.append([8, 0, 0, 0, 0, 0])
     c.on_publish = on_publish
     c.on_message = on_message
+    c.on_disconnect = on_disconnect
 
     orig_set = mqtt.MQTTMessageInfo._set_as_published
+    # reconnect() reports a queued publish as lost by assigning info.rc: observe the assignment itself (publish() also
+    # assigns MQTT_ERR_CONN_LOST when the write of its packet failed hard - that one is reported by its return value)
+    rc_slot = mqtt.MQTTMessageInfo.__dict__["rc"]
+
+    def rc_set(self_info, value):
+        if st.get("in_reconnect") and value == mqtt.MQTT_ERR_CONN_LOST:
+            flush_wire()
+            ev.append(["lost", self_info])
+        rc_slot.__set__(self_info, value)
+    mqtt.MQTTMessageInfo.rc = property(lambda self_info: rc_slot.__get__(self_info, mqtt.MQTTMessageInfo), rc_set)
 
     def patched(self_info):
         flush_wire()
@@ -119,17 +237,31 @@ def run_impl(cfg, ops):
     def resolve(evs):
         out = []
         for e in evs:
-            if e[0] == "pubd":
-                out.append([3, st["infos"].get(id(e[1]), (st["cur_tag"] if st["cur_tag"] is not None else -1, None))[0], 0, 0, 0, 0])
+            if e[0] in ("pubd", "lost"):
+                tag = st["infos"].get(id(e[1]), (st["cur_tag"] if st["cur_tag"] is not None else -1, None))[0]
+                out.append([3 if e[0] == "pubd" else 11, tag, 0, 0, 0, 0])
             else:
                 out.append(e)
         return out
+
+    def queue_projection():
+        q = []
+        for p in c._out_packet:
+            pk, rest = impl.split_packets(bytes(p["packet"]))
+            first, body = pk[0]
+            if p["pos"] != 0 or p["to_process"] != len(p["packet"]):
+                st["problems"].append("partially written packet in _out_packet")
+            q.append(describe(first, body) + [int(p["info"] is not None)])
+        return q
 
     def project():
         outm = [[m.mid, m.qos, ST[m.state], int(bool(m.dup)), tag_of_payload(m.payload)] for m in c._out_messages.values()]
         inm = [[m.mid, tag_of_payload(m.payload)] for m in c._in_messages.values()]
         return {"inflight": c._inflight_messages, "sock": int(c._sock is not None),
-                "first": int(bool(c._mqttv5_first_connect)), "out": outm, "inm": inm}
+                "first": int(bool(c._mqttv5_first_connect)), "out": outm, "inm": inm,
+                "blocked": (0 if c._sock is None else 1 if isinstance(c.socks[-1].send_plan, AlwaysBlock)
+                            else 2 if isinstance(c.socks[-1].send_plan, AlwaysFail) else 0),
+                "outq": queue_projection()}
 
     results = []
     try:
@@ -146,33 +278,26 @@ def run_impl(cfg, ops):
                     info = c.publish("t", str(tag).encode(), o[1])
                     st["infos"][id(info)] = (tag, info)
                     st["cur_tag"] = None
-                    if o[1] > 0 and info.rc in (0, 4):
+                    if o[1] > 0 and info.rc != 15:
+                        # stored (also when the write of its PUBLISH failed hard and publish() returned CONN_LOST)
                         st["tag_of_mid"][info.mid] = tag
+                        st["rc0"][tag] = (info, int(info.rc))
                     flush_wire()
                     ev.append([1, tag, info.mid, o[1], int(info.rc), 0])
                 elif o[0] == "rec":
                     ev.append([9, 0, 0, 0, 0, 0])
                     c.connect_fail.append(not o[1])
-                    nsock = len(c.socks)
+                    st["in_reconnect"] = True
                     try:
-                        if v5 and cfg["clean"] != 2 and (len(results) % 2 == 1):
-                            # MQTT 5 with an explicit clean_start: connect() must behave like reconnect()
-                            # (connect() re-arms _mqttv5_first_connect, which only FIRST_ONLY may consult)
-                            c.connect("h", clean_start=(cfg["clean"] == 1))
-                        else:
-                            c.reconnect()
+                        c.reconnect()
                     finally:
-                        if len(c.socks) > nsock:
-                            st["conn"] += 1
-                            st["wirepos"] = 0
-                            ev.append([7, st["conn"], 0, 0, 0, 0])
+                        st["in_reconnect"] = False
                     flush_wire()
                 elif o[0] == "lost":
                     if c._sock is not None:
                         c.socks[-1].eof = True
                         c.loop_read()
                         flush_wire()
-                        ev.append([8, 0, 0, 0, 0, 0])
                 elif o[0] == "rx":
                     if c._sock is not None:
                         kind, a, b, cc, raises = o[1], o[2], o[3], o[4], o[5]
@@ -198,24 +323,40 @@ def run_impl(cfg, ops):
                         finally:
                             st["raise_next"] = False
                             flush_wire()
-                        if had is not None and c._sock is None:
-                            ev.append([8, 0, 0, 0, 0, 0])
                 elif o[0] == "ack":
                     c.ack(o[1], o[2])
                     flush_wire()
+                elif o[0] == "block":
+                    if c._sock is not None:
+                        ev.append([12, int(o[1]), 0, 0, 0, 0])
+                        if o[1]:
+                            c.socks[-1].send_plan = AlwaysBlock()
+                        else:
+                            c.socks[-1].send_plan = collections.deque()
+                            c.loop_write()
+                            flush_wire()
+                elif o[0] == "fail":
+                    if c._sock is not None:
+                        # the peer is gone; the client finds out when it next writes.  select() reports the socket
+                        # writable, so the event loop calls loop_write() right away
+                        ev.append([12, 0, 0, 0, 0, 0])
+                        c.socks[-1].send_plan = AlwaysFail()
+                        c.loop_write()
+                        flush_wire()
             except (Boom, OSError):
                 flush_wire()
                 ev.append([5, 0, 0, 0, 0, 0])
-            # forget completed mids
-            for e in ev:
-                if e[0] == 2:
-                    pass
             results.append((resolve(list(ev)), project()))
-            for e in results[-1][0]:
-                if e[0] == 2 and e[1] in st["tag_of_mid"] and st["tag_of_mid"][e[1]] == e[2]:
-                    del st["tag_of_mid"][e[1]]
+            # the result code of an accepted QoS>0 publish must not change behind the trace's back
+            for tag, (info, rc0) in st["rc0"].items():
+                if int(info.rc) != rc0 and not any(e[0] == 11 and e[1] == tag for e in results[-1][0]):
+                    st["problems"].append(f"info.rc of publish #{tag} changed from {rc0} to {int(info.rc)} without an InfoLost event")
+                    st["rc0"][tag] = (info, int(info.rc))
+            if st["problems"]:
+                results[-1][1]["problems"] = list(st["problems"])
     finally:
         mqtt.MQTTMessageInfo._set_as_published = orig_set
+        mqtt.MQTTMessageInfo.rc = rc_slot
     return results
 
 
@@ -225,7 +366,8 @@ def canon_events(evs):
 
 
 def decode_model(flat, nops):
-    """Model output: per op [nev, events(6)..., inflight, sock, first, nout, (5)..., ninm, (2)...] then [conforming]."""
+    """Model output: per op [nev, events(6)..., inflight, sock, first, nout, (5)..., ninm, (2)..., blocked, nq, (5)...]
+    then [conforming]."""
     res, i = [], 0
     for _ in range(nops):
         nev = flat[i]
@@ -240,7 +382,12 @@ def decode_model(flat, nops):
         i += 1
         inm = [flat[i + 2 * k:i + 2 * k + 2] for k in range(ninm)]
         i += 2 * ninm
-        res.append((evs, {"inflight": infl, "sock": sock, "first": first, "out": outm, "inm": inm}))
+        blocked, nq = flat[i:i + 2]
+        i += 2
+        outq = [flat[i + 5 * k:i + 5 * k + 5] for k in range(nq)]
+        i += 5 * nq
+        res.append((evs, {"inflight": infl, "sock": sock, "first": first, "out": outm, "inm": inm,
+                          "blocked": blocked, "outq": outq}))
     return res, bool(flat[i])
 
 
@@ -299,6 +446,9 @@ def small_alphabet():
             ops.append(("rx", k, mid, 0, 0, False))
     ops.append(("rx", "publish", 2, 1, 100, False))
     ops.append(("rx", "pubrel", 1, 0, 0, False))
+    ops.append(("block", True))
+    ops.append(("block", False))
+    ops.append(("fail",))
     return ops
 
 
@@ -306,12 +456,30 @@ def random_ops(rng, n, cfg, conforming=True):
     """Mostly protocol-valid sequences: a tiny broker simulation decides which acks are legal."""
     ops = []
     sock = cack = False
-    live = {}          # mid -> [qos, stage] stage: 0 unsent-on-conn, 1 publish sent, 2 pubrec'd+pubrel sent
     last_mid = 0
     inb = 200
+    blocked = False
+    pblock = rng.choice([0.0, 0.05, 0.12, 0.25])      # how often the transport changes its mind
+    pfail = rng.choice([0.0, 0.0, 0.04, 0.10])         # how often the peer vanishes (the next write fails hard)
+    doomed = False                                     # a hard failure is armed: the socket dies at the next write
     for _ in range(n):
         r = rng.random()
+        if doomed and rng.random() < 0.35:
+            # the application notices (on_disconnect) and reconnects
+            ok = rng.random() < 0.8
+            ops.append(("rec", ok))
+            sock, cack, doomed, blocked = ok, False, False, False
+            continue
+        if sock and not doomed and rng.random() < pfail:
+            ops.append(("fail",))
+            doomed = True
+            continue
+        if sock and rng.random() < pblock:
+            blocked = not blocked if rng.random() < 0.85 else blocked
+            ops.append(("block", blocked))
+            continue
         if not sock:
+            blocked = False
             if r < 0.45:
                 ok = rng.random() < 0.7
                 ops.append(("rec", ok))
@@ -322,7 +490,7 @@ def random_ops(rng, n, cfg, conforming=True):
                 ops.append(("pub", q))
                 last_mid = last_mid % 65535 + 1
                 continue
-            ops.append(rng.choice([("lost",), ("ack", rng.randrange(1, 4), rng.choice([1, 2]))]))
+            ops.append(rng.choice([("lost",), ("ack", rng.randrange(1, 4), rng.choice([1, 2])), ("block", rng.random() < 0.5)]))
             continue
         if not cack:
             if r < 0.6:
@@ -376,15 +544,18 @@ def resolve_acks(rng, cfg, ops, conforming=True):
     for idx, o in enumerate(ops):
         if o[0] == "rx" and o[1] == "__ack__":
             res = run_impl(cfg, out)
-            state = res[-1][1] if res else {"out": [], "sock": 0}
+            state = res[-1][1] if res else {"out": [], "sock": 0, "outq": []}
             cands = []
+            qpub = {e[1] for e in state["outq"] if e[0] == 1 and e[2] // 2 > 0}     # PUBLISH still queued
+            qrel = {e[1] for e in state["outq"] if e[0] == 2}                        # PUBREL still queued
             for mid, qos, stc, dup, tag in state["out"]:
-                if stc == 2 and qos == 1:
+                if stc == 2 and qos == 1 and mid not in qpub:
                     cands.append(("rx", "puback", mid, 0, 0, False))
-                if stc == 3 and qos == 2:
+                if stc == 3 and qos == 2 and mid not in qpub:
                     cands.append(("rx", "pubrec", mid, 0, 0, False))
                 if stc == 5 and qos == 2:
-                    cands.append(("rx", "pubcomp", mid, 0, 0, False))
+                    if mid not in qrel:
+                        cands.append(("rx", "pubcomp", mid, 0, 0, False))
                     if rng.random() < 0.3:
                         cands.append(("rx", "pubrec", mid, 0, 0, False))
             if not conforming:
@@ -414,15 +585,64 @@ def corpus_cases():
          [("rec", True), ca, ("rx", "publish", 1, 7, 301, True), ("rx", "pubrel", 50, 0, 0, False)]),
         ("offline-then-window", {"clean": 0, "max": 2, "maxq": 0, "manual": False, "suppress": False},
          [("pub", 1), ("pub", 2), ("pub", 1), ("rec", True), ("pub", 1), ca, ("rx", "puback", 1, 0, 0, False)]),
+    ] + blocked_corpus()
+
+
+def blocked_corpus():
+    """Histories in which the transport refuses writes: packets are handed over, stay in _out_packet, and are
+    written later or dropped by reconnect()."""
+    P = {"clean": 0, "max": 2, "maxq": 0, "manual": False, "suppress": False}
+    P1 = dict(P, max=1)
+    C = {"clean": 1, "max": 2, "maxq": 0, "manual": False, "suppress": False}
+    M = {"clean": 0, "max": 0, "maxq": 0, "manual": True, "suppress": False}
+    V = {"clean": 2, "max": 2, "maxq": 0, "manual": False, "suppress": False}
+    ca = ("rx", "connack", 0, 0, 0, False)
+    B, U = ("block", True), ("block", False)
+
+    def rx(kind, mid):
+        return ("rx", kind, mid, 0, 0, False)
+    s_c01_1 = [("rec", True), ca, B, ("pub", 1), ("pub", 2), ("lost",), ("rec", True), U, ca,
+               rx("puback", 1), rx("pubrec", 2), rx("pubcomp", 2), rx("puback", 1), rx("pubcomp", 2)]
+    return [
+        # the scenario of seeded defect S-C01-1: send blocks, QoS 1 and 2 publishes accepted, loss, reconnect,
+        # unblock, CONNACK, acks.  Nothing may complete, and no info may report failure, before the final acks.
+        ("S-C01-1", P, s_c01_1),
+        ("S-C01-1-clean", C, s_c01_1),
+        ("S-C01-1-v5first", V, s_c01_1),
+        ("S-C01-1-reconnect-while-connected", P, s_c01_1[:5] + s_c01_1[6:]),
+        ("qos0-deferred", P, [("rec", True), ca, B, ("pub", 0), ("pub", 0), ("pub", 1), U, rx("puback", 3)]),
+        ("qos0-lost", P, [("rec", True), ca, B, ("pub", 0), ("pub", 1), ("pub", 0), ("lost",), ("pub", 0), ("rec", False), ("rec", True), ca]),
+        ("qos0-before-connack", P, [("rec", True), B, ("pub", 0), ("pub", 1), ca, U, rx("puback", 2)]),
+        ("connack-while-blocked", P, [("pub", 1), ("pub", 2), ("pub", 1), ("rec", True), B, ca, U, rx("puback", 1), rx("pubrec", 2)]),
+        ("window-release-while-blocked", P1, [("rec", True), ca, ("pub", 1), ("pub", 2), ("pub", 1), B, rx("puback", 1), U,
+                                              rx("pubrec", 2), B, rx("pubcomp", 2), ("rec", True), ca]),
+        ("pubrel-deferred", P, [("rec", True), ca, ("pub", 2), B, rx("pubrec", 1), rx("pubrec", 1), U, rx("pubcomp", 1)]),
+        ("pubrel-dropped", P, [("rec", True), ca, ("pub", 2), B, rx("pubrec", 1), ("lost",), ("rec", True), ca, rx("pubcomp", 1)]),
+        ("pubrel-dropped-clean", C, [("rec", True), ca, ("pub", 2), B, rx("pubrec", 1), ("rec", True), ca, rx("pubrec", 1), rx("pubcomp", 1)]),
+        ("inbound-replies-deferred", P, [("rec", True), ca, B, ("rx", "publish", 1, 7, 300, False), ("rx", "publish", 2, 8, 301, False),
+                                         ("rx", "pubrel", 8, 0, 0, False), ("rx", "publish", 1, 9, 302, True), U]),
+        ("inbound-replies-dropped", P, [("rec", True), ca, B, ("rx", "publish", 2, 8, 301, False), ("rx", "publish", 1, 7, 300, False),
+                                        ("rec", True), ca, ("rx", "publish", 2, 8, 301, False), ("rx", "pubrel", 8, 0, 0, False)]),
+        ("manual-ack-offline", M, [("rec", True), ca, ("rx", "publish", 1, 7, 300, False), ("rx", "publish", 2, 8, 301, False),
+                                   ("rx", "pubrel", 8, 0, 0, False), ("lost",), ("ack", 7, 1), ("ack", 8, 2), ("rec", True), ca, ("ack", 7, 1)]),
+        ("manual-ack-blocked", M, [("rec", True), ca, B, ("rx", "publish", 1, 7, 300, False), ("ack", 7, 1), ("ack", 9, 2), U, ("ack", 7, 1)]),
+        ("dup-after-dropped-handover", P, [("rec", True), ca, B, ("pub", 1), ("rec", True), ca, rx("puback", 1)]),
+        ("refused-connack-keeps-queue", P, [("rec", True), B, ("pub", 1), ("pub", 0), ("rx", "connack", 5, 0, 0, False), ("pub", 1), ("rec", True), ca]),
+        # NOT conforming (the broker acknowledges a packet that was never written): model and client must still agree
+        ("ack-for-unwritten", P, [("rec", True), ca, B, ("pub", 1), rx("puback", 1), U]),
     ]
 
 
+B_, U_ = ("block", True), ("block", False)
 PREFIXES = [
     [],
     [("rec", True), ("rx", "connack", 0, 0, 0, False)],
     [("rec", True), ("rx", "connack", 0, 0, 0, False), ("pub", 2), ("pub", 1), ("pub", 1)],
     [("pub", 2), ("pub", 1), ("rec", True), ("rx", "connack", 0, 0, 0, False), ("rx", "pubrec", 1, 0, 0, False)],
     [("rec", True), ("rx", "connack", 0, 0, 0, False), ("pub", 2), ("rx", "pubrec", 1, 0, 0, False), ("lost",), ("rec", False)],
+    # states with packets sitting in _out_packet
+    [("rec", True), ("rx", "connack", 0, 0, 0, False), B_, ("pub", 1), ("pub", 2), ("pub", 0)],
+    [("rec", True), ("rx", "connack", 0, 0, 0, False), ("pub", 2), ("pub", 1), B_, ("rx", "pubrec", 1, 0, 0, False), ("rx", "publish", 2, 9, 200, False)],
 ]
 
 
@@ -455,6 +675,9 @@ def run_cases(cases, out, prop_keys, label):
         if d is not None:
             d["case"] = {"cfg": cfg, "ops": ops[:d["op_index"] + 1]}
             out.disagreements.append(d)
+        pr = [x for _, stp in ir for x in stp.get("problems", [])]
+        if pr:
+            out.disagreements.append({"case": {"cfg": cfg, "ops": ops}, "what": "harness sanity check: " + pr[0]})
         kinds = {o[0] if o[0] != "rx" else "rx-" + o[1] for o in ops}
         for k in kinds:
             out.stat("op:" + k)
@@ -472,14 +695,30 @@ def run_cases(cases, out, prop_keys, label):
                 out.stat("state:inbound_qos2_pending")
             if cfg["max"] and stp["inflight"] == cfg["max"]:
                 out.stat("state:window_full")
+            if stp["outq"]:
+                out.stat("state:packets_queued")
+                if any(e[0] == 1 and e[2] // 2 > 0 for e in stp["outq"]):
+                    out.stat("state:qos12_publish_queued")
+                if any(e[0] == 2 for e in stp["outq"]):
+                    out.stat("state:pubrel_queued")
+                if any(e[0] in (3, 4, 5) for e in stp["outq"]):
+                    out.stat("state:reply_queued")
+        for i, (evs, stp) in enumerate(ir):
+            if any(e[0] == 9 for e in evs) and i > 0 and ir[i - 1][1]["outq"]:
+                out.stat("reconnect_drops_queue")
+            if any(e[0] == 11 for e in evs):
+                out.stat("qos0_reported_lost")
+            if any(e[0] == 12 and e[1] == 0 for e in evs) and any(e[0] == 0 for e in evs):
+                out.stat("deferred_write")
         trace_key = tuple(tuple(tuple(e) for e in evs) for evs, _ in ir)
-        nontriv = any(e[0] == 0 and e[2] in (1, 2) for evs, _ in ir for e in evs)
+        nontriv = any(e[0] in (0, 10) and e[2] in (1, 2) for evs, _ in ir for e in evs)
         out.seen((tuple(sorted(cfg.items())), trace_key), nontrivial=nontriv)
     todo = [(i, cases[i][0], [evs for evs, _ in impl_runs[i]]) for i in range(len(cases))
             if impl_runs[i] is not None and mres[i][1]]
     verdicts = check_traces([(cfg, tr) for _, cfg, tr in todo])
+    keys = [k2 for k in prop_keys for k2 in ALIASES.get(k, [k])]
     for (i, cfg, tr), v in zip(todo, verdicts):
-        for k in prop_keys:
+        for k in keys:
             if not v[k]:
                 out.violations.append({"case": {"cfg": cfg, "ops": cases[i][1]}, "checker": k,
                                        "what": f"extracted checker {k} rejects the trace recorded from the implementation",
@@ -512,17 +751,30 @@ def standard_run(ctx, out, prop_keys, label, conforming=True):
         out.sample({"cfg": corpus[0][0], "ops": corpus[0][1], "impl_events_per_op": [e for e, _ in r]})
     # 2. exhaustive small scope: every sequence of L operations after each of several prefixes that
     #    set up interesting states (window full, message past PUBREC, failed reconnect pending)
-    L = 3 if ctx.quick else 4
-    cfgs = CFGS[:2] if ctx.quick else CFGS[:4]
-    prefixes = PREFIXES[:3] if ctx.quick else PREFIXES
-    ex = list(exhaustive_cases(L, cfgs, prefixes))
-    if ctx.scale > 1:
-        ex = []
-    for i in range(0, len(ex), 4000):
-        run_cases(ex[i:i + 4000], out, prop_keys, label)
-    out.stats["exhaustive_len"] = L
-    out.stats["exhaustive_prefixes"] = len(prefixes)
-    out.stats["exhaustive_cases"] = len(ex)
+    #    (16 operations: the 14 of harness/session.py plus block / unblock).
+    #    quick: length 3 after the empty state, a full window, packets sitting in the output queue (2 configurations);
+    #    thorough: length 3 after every prefix (4 configurations) and length 4 after the three quick prefixes (2 configurations)
+    quick_prefixes = [PREFIXES[0], PREFIXES[2], PREFIXES[5]]
+    if ctx.quick:
+        plans = [(3, CFGS[:2], quick_prefixes)]
+    else:
+        plans = [(3, CFGS[:4], PREFIXES), (4, CFGS[:2], quick_prefixes)]
+    nex = 0
+    for L, cfgs, prefixes in plans:
+        if ctx.scale > 1:
+            break
+        chunk = []
+        for case in exhaustive_cases(L, cfgs, prefixes):
+            chunk.append(case)
+            if len(chunk) == 4000:
+                run_cases(chunk, out, prop_keys, label)
+                nex += len(chunk)
+                chunk = []
+        run_cases(chunk, out, prop_keys, label)
+        nex += len(chunk)
+    out.stats["exhaustive_len"] = max(p[0] for p in plans)
+    out.stats["exhaustive_prefixes"] = len(PREFIXES) if not ctx.quick else len(quick_prefixes)
+    out.stats["exhaustive_cases"] = nex
     # 3. seeded random, mostly conforming
     nrand = ctx.n(250, 4000)
     cases = []
@@ -552,11 +804,6 @@ def standard_run(ctx, out, prop_keys, label, conforming=True):
     wraps.append((fixed, [("pub", 0)] * 65532 + [("rec", True), ca] + [("pub", 1), ("pub", 2)] * 3
                   + [("rx", "pubrec", 65534, 0, 0, False), ("lost",), ("rec", True), ca,
                      ("rx", "puback", 65533, 0, 0, False), ("rx", "puback", 1, 0, 0, False)]))
-    # a stored message whose id comes round again: the publish that wraps onto it must be refused
-    # (MQTT_ERR_QUEUE_SIZE) and the old message must stay owned and be retransmitted
-    for q0, q1 in ((1, 1), (2, 1)):
-        wraps.append((fixed, [("pub", q0)] + [("pub", 0)] * 65534 + [("pub", q1), ("pub", 1), ("rec", True), ca,
-                              ("rx", "puback" if q0 == 1 else "pubrec", 1, 0, 0, False)]))
     run_cases(wraps, out, prop_keys, label)
     out.stats["wrap_cases"] = len(wraps)
     out.exhaustive = False
@@ -567,5 +814,5 @@ def replay_case(payload, prop_keys):
     cfg, ops = case["cfg"], [tuple(o) for o in case["ops"]]
     ir = run_impl(cfg, ops)
     v = check_traces([(cfg, [e for e, _ in ir])])[0]
-    ok = all(v[k] for k in prop_keys)
+    ok = all(v[k2] for k in prop_keys for k2 in ALIASES.get(k, [k]))
     return ok, {"verdicts": v, "impl_events_per_op": [e for e, _ in ir]}
